@@ -55,4 +55,7 @@ instance : Transc Float where
   asinh := Float.asinh
   pow := Float.pow
 
+instance instNatCastFloat : NatCast Float := ⟨Float.ofNat⟩
+instance instIntCastFloat : IntCast Float := ⟨Float.ofInt⟩
+
 end HydroVerif
